@@ -98,6 +98,8 @@ def check(ctx):
     ctx.attempt(_commit_assigns)
     ctx.attempt(_fresh)
     ctx.attempt(_forwarding)
+    from .c13 import config_setters_keep_false     # re-configure + re-parse equals a fresh object with the final settings
+    ctx.attempt(config_setters_keep_false, rule='COMMIT')
     ctx.attempt(_globals_inventory)
     ctx.attempt(forward.check_all, module_suffixes=('plssdesc.plssdesc', 'tract.tract', 'tract.tract_parse'))
     ctx.attempt(common.none_vs_false, [f for f in ctx.repo.funcs.values() if f.module.name.endswith('config.config')])
@@ -164,11 +166,23 @@ def _parsers_readonly(ctx):
         for lp in walk_local(m.node):
             if not isinstance(lp, ast.For) or not isinstance(lp.target, ast.Name):
                 continue
+            def _from_parent(e):
+                # getattr(parent, <loop var>) directly or through a local of the loop body
+                for g in ast.walk(e):
+                    if isinstance(g, ast.Call) and dotted(g.func) == 'getattr' and len(g.args) >= 2 \
+                            and norm(g.args[0]) in ('parent', 'self.parent') and norm(g.args[1]) == lp.target.id:
+                        return True
+                    if isinstance(g, ast.Name):
+                        for a_ in ast.walk(lp):
+                            if isinstance(a_, ast.Assign) and len(a_.targets) == 1 and norm(a_.targets[0]) == g.id \
+                                    and a_.value is not e and any(
+                                        isinstance(h, ast.Call) and dotted(h.func) == 'getattr' and len(h.args) >= 2
+                                        and norm(h.args[0]) in ('parent', 'self.parent') and norm(h.args[1]) == lp.target.id
+                                        for h in ast.walk(a_.value)):
+                                return True
+                return False
             sets = [c for c in ast.walk(lp) if isinstance(c, ast.Call) and dotted(c.func) == 'setattr' and len(c.args) == 3
-                    and norm(c.args[0]) == 'self' and norm(c.args[1]) == lp.target.id
-                    and any(isinstance(g, ast.Call) and dotted(g.func) == 'getattr' and len(g.args) >= 2
-                            and norm(g.args[0]) in ('parent', 'self.parent') and norm(g.args[1]) == lp.target.id
-                            for g in ast.walk(c.args[2]))]
+                    and norm(c.args[0]) == 'self' and norm(c.args[1]) == lp.target.id and _from_parent(c.args[2])]
             if not sets:
                 continue
             it = lp.iter
@@ -283,7 +297,12 @@ def fresh_inputs(ctx, specs=(('PLSSDesc.parse', 'PLSSParser', 'plss_parse'), ('T
     committed parse overwrites (the parse would feed on its own output)."""
     for spec, pcls, mod in specs:
         fi = ctx.repo.func(spec)
-        committed = set(ctx.fold.get_attr(mod, pcls, 'UNPACKABLES'))
+        try:
+            committed = set(ctx.fold.get_attr(mod, pcls, 'UNPACKABLES'))
+        except AnalysisError:
+            committed = set()
+        if pcls.endswith('Preprocessor'):
+            committed = {'pp_desc'}
         for n in walk_local(fi.node):
             if isinstance(n, ast.Attribute) and isinstance(n.ctx, ast.Store) and norm(n.value) == 'self' \
                     and ('commit', True) in [(t, pol) for _e, t, pol in facts_at(n)]:
@@ -292,8 +311,11 @@ def fresh_inputs(ctx, specs=(('PLSSDesc.parse', 'PLSSParser', 'plss_parse'), ('T
         if not calls:
             ctx.undecided('FRESH', f"{spec}: parser inputs", f"no {pcls}(...) call found")
         for c in calls:
-            for k in c.keywords:
-                if k.arg is None or (k.arg == 'parent' and norm(k.value) == 'self'):
+            class _K:           # positional arguments are examined like keywords
+                def __init__(self, arg, value):
+                    self.arg, self.value = arg, value
+            for k in list(c.keywords) + [_K(f"#{i}", a) for i, a in enumerate(c.args)]:
+                if k.arg is None or (k.arg == 'parent' and norm(k.value) == 'self') or norm(k.value) == 'self':
                     continue
                 prov = flow.provenance(fi.node, k.value)
                 fed = sorted(a for a in flow.prov_attrs(prov) if a.startswith('self.') and a[5:] in committed)
